@@ -160,6 +160,9 @@ func (p *Proc) Process(ctx context.Context, recs []opencdc.Record) []sdk.Process
 			}
 			p.W.Log("proc", "split", idx, fmt.Sprintf("%s|n=%d", src, n))
 			out = append(out, pieces)
+		case "nilerr": // an ErrorRecord whose error is not set (what a standalone plugin's reply with the error field unset becomes)
+			p.W.Log("proc", "error", idx, src)
+			out = append(out, sdk.ErrorRecord{})
 		case "errshort": // fails this record and stops: an ErrorRecord followed by nothing (the rest of the batch is left out)
 			p.W.Log("proc", "error", idx, src)
 			out = append(out, sdk.ErrorRecord{Error: cerrors.Errorf("processor %s rejected %s:%d", p.S.Name, src, idx)})
